@@ -703,7 +703,7 @@ def kernel_value_table(ctx, clause: str, what: str):
                 for inc in ((True, False) if eos is not None else (False,)):
                     for bf in (False, True):
                         for norm in (False, True):
-                            for prefix in ((False, True, "without the full prefix") if what == "distance" else (False,)) + (("no hypothesis steps", "no hypothesis steps, per prefix") if what == "distance" and costs in (unit_, uneq_) else ()):
+                            for prefix in ((False, True, "without the full prefix") if what == "distance" else (False, True)) + (("no hypothesis steps", "no hypothesis steps, per prefix") if what == "distance" and costs in (unit_, uneq_) else ()):
                                 if (costs[0] > 1000 or costs[2].denominator > 1000) and (bf or norm):
                                     continue
                                 # (a batch whose hypotheses are all empty: a hypothesis tensor without a step axis entry - the loop over steps never runs)
@@ -758,6 +758,12 @@ def kernel_value_table(ctx, clause: str, what: str):
                                             w_ = div(tabs[len(hs)][0], len(hs))
                                             ok = g[n_] == w_
                                             shown = (g[n_], w_)
+                                    elif prefix:
+                                        # (per prefix: within the fewest .. most edits of that prefix's optimal alignments; padding behind the hypothesis)
+                                        col_ = g[:, n_].tolist()
+                                        rng_ = [(div(Fr(tabs[k_][1]), k_), div(Fr(tabs[k_][2]), k_)) if k_ <= len(hs) else (Fr(PAD), Fr(PAD)) for k_ in range(len(h_) + 1)]
+                                        ok = len(col_) == len(rng_) and all(lo_ <= v_ <= hi_ for v_, (lo_, hi_) in zip(col_, rng_))
+                                        shown = (col_, [f"{lo_}..{hi_}" for lo_, hi_ in rng_])
                                     else:
                                         lo, hi = tabs[len(hs)][1], tabs[len(hs)][2]
                                         lo_, hi_ = div(Fr(lo), len(hs)), div(Fr(hi), len(hs))
